@@ -304,6 +304,17 @@ func (run *c41dRun) lifecycle(kind string, quiesce bool, ctx context.Context, ca
 	}
 	// probe: admission is closed once a Stop/Quiesce call has returned.
 	run.enqueue(run.r.Rand(4141, uint64(run.idx), uint64(len(history))))
+	if quiesce {
+		// The only other lifecycle entry point is Start. While the generation is
+		// quiescing (from the Quiesce call until an ordinary Stop finalizes it)
+		// Start must refuse and must not reopen plan admission.
+		serr := run.rt.Start(context.Background())
+		r.Count("lifecycle.start_while_quiescing", 1)
+		if !errors.Is(serr, delivery.ErrRuntimeClosed) {
+			r.Violation("delivery-start-succeeded-while-quiescing", map[string]any{"run": run.idx, "cfg": run.cfg, "calls": history, "start_err": fmt.Sprint(serr)})
+		}
+		run.enqueue(run.r.Rand(4142, uint64(run.idx), uint64(len(history))))
+	}
 	return err == nil
 }
 
